@@ -148,8 +148,11 @@ class Session(object):
     def __init__(self, case):
         self.case = case
         self.pg = core.boot()
-        model = case["model"]
-        self.ref = RefModel(model, insertion_order(model))
+        model = copy.deepcopy(case["model"])
+        self.model = model
+        self.event_order = list(insertion_order(model))
+        self.extended = 0
+        self.ref = RefModel(model, self.event_order)
         env = case.get("env", {})
         self.k = None
         kenv = env.get("K", {"backend": "lambda"})
@@ -481,6 +484,26 @@ def owner_ops(sess, op, step, stats, log):
     elif kind == "evaluate":
         ode.ode(np.array(op["x"], float), op["t"])
         ode.jacobian(np.array(op["x"], float), op["t"])
+    elif kind == "extend":
+        # the owner extends the shared model in place (states and parameters unchanged): every client that holds a
+        # reference to it - loss objects included - must from now on see the new model, nothing cached from the old
+        from ..build import make_process
+        if "proc" in op:
+            slot, obj = make_process(sess.pg, op["proc"], op.get("route", "add_event"))
+            if slot == "event":
+                ode.add_event(obj)
+            elif slot == "transition":
+                ode.add_transition(obj)
+            else:
+                ode.add_birth_death(obj)
+            sess.model.setdefault("processes", []).append(dict(op["proc"], route=op.get("route", "add_event")))
+            sess.event_order.append(len(sess.model["processes"]) - 1)
+        else:
+            ode.add_ode(sess.pg.Transition(origin=op["state"], equation=op["eq"], transition_type="ODE"))
+            sess.model.setdefault("odes", []).append({"state": op["state"], "eq": op["eq"]})
+        sess.ref = RefModel(sess.model, sess.event_order)
+        sess.extended += 1
+        stats["model_extended"] = stats.get("model_extended", 0) + 1
     log.append(["owner", step, kind])
 
 
@@ -575,7 +598,7 @@ def loss_call(sess, op, step, out, stats, log):
         out.append(fail("C06.%s" % what, step, "%s %s(%s) = %r, the stated loss of the true trajectory is %r (|diff| %.3g > tol %.3g); states %s" % (
             d["cls"], what, free, got, want, abs(got - want), tol, d["states"])))
     same_x0 = [float(v) for v in sess.loss_x0.get(d["id"], sess.x0)] == [float(v) for v in sess.x0]
-    if d["cls"] == "SquareLoss" and op.get("at_truth") and not stored and d.get("noise_free") and same_x0 and what == "cost":
+    if d["cls"] == "SquareLoss" and op.get("at_truth") and not stored and not sess.extended and d.get("noise_free") and same_x0 and what == "cost":
         sy = float(np.sum(np.array(d["y"], float) ** 2))
         if not (got < 1e-10 * max(sy, 1e-300) + 1e-14):
             out.append(fail("C06.zero", step, "square-loss cost at the data-generating parameters is %r (sum y^2 = %r)" % (got, sy)))
@@ -1296,6 +1319,25 @@ def gen_owner_op(rng, ref, d, box, x0, t0, tmax):
     return {"op": "owner", "kind": "evaluate", "x": [round(abs(v) + 0.1, 4) for v in x0], "t": t0}
 
 
+def gen_extend_op(rng, ref):
+    """A gentle in-place extension of the shared model (same states and parameters): a dissipative or mass-moving
+    term with a small coefficient, often non-linear in the states, valid for states of either sign."""
+    names = ref.state_names
+    X = rng.choice(names)
+    others = [s_ for s_ in names if s_ != X]
+    c = rng.choice(["0.03", "0.08", "0.15"])
+    shape = rng.choice(["%s*%s" % (c, X), "%s*%s**3/(1+%s*%s)" % (c, X, X, X), "%s*%s/(1+%s*%s)" % (c, X, X, X)])
+    r = rng.random()
+    if r < 0.4 and others:
+        Y = rng.choice(others)
+        pr = {"rate": shape, "trans": [{"type": "T", "o": X, "d": Y, "mag": "1"}]}
+        return {"op": "owner", "kind": "extend", "proc": pr, "route": rng.choice(["add_event", "add_legacy", "add_trans_event"])}
+    if r < 0.7:
+        pr = {"rate": shape, "trans": [{"type": "D", "o": X, "mag": "1"}]}
+        return {"op": "owner", "kind": "extend", "proc": pr, "route": rng.choice(["add_event", "add_legacy"])}
+    return {"op": "owner", "kind": "extend", "state": X, "eq": "-" + shape}
+
+
 def gen_loss_case(S, tier, prop, kinds, classes=None, allow_targets=True, nloss=None):
     """kinds: which calls to generate: subset of {'cost','costIV','residual','sensitivity','gradient',
     'sensitivityIV','jac','jtj','hessian'}"""
@@ -1358,7 +1400,12 @@ def gen_loss_case(S, tier, prop, kinds, classes=None, allow_targets=True, nloss=
             srng.shuffle(groups)
             calls = [c for g in groups for c in g]
             sched = []
-            for c in calls:
+            extend_at = srng.randrange(1, len(calls)) if (len(calls) >= 2 and srng.random() < 0.12) else None
+            for ci, c in enumerate(calls):
+                if ci == extend_at:
+                    # the owner extends the shared model in place between two calls of the loss objects
+                    sched.append(gen_extend_op(srng, ref))
+                    batch = "fault_injecting"
                 if srng.random() < 0.4:
                     dd = [d for d in defs if d["id"] == c["id"]][0]
                     sched.append(gen_owner_op(srng, ref, dd, box, x0, t0, tm))
